@@ -102,6 +102,20 @@ fn main() {
         let c = r.pick(&cands).clone();
         if !chosen.contains(&c) { chosen.push(c); }
     }
+    // generated high-register-pressure packages (no std: fast to build): k long-lived values kept alive across n
+    // short-lived temporaries inside a loop; k and n are swept around the number of allocatable registers, where the
+    // order in which the allocator simplifies/spills nodes starts to matter
+    let npress: usize = std::env::var("SV_C15_PRESSURE").ok().and_then(|s| s.parse().ok()).unwrap_or(if a.n >= 20 { 40 } else { 6 });
+    for _ in 0..npress {
+        let k = 5 + r.below(7) as usize;      // 5..11 long-lived
+        let n = 18 + r.below(20) as usize;    // 18..37 temporaries
+        let d = scratch.join(format!("gen_pressure_{k}_{n}"));
+        if d.exists() { continue; }
+        std::fs::create_dir_all(d.join("src")).unwrap();
+        std::fs::write(d.join("Forc.toml"), "[project]\nauthors = [\"verif\"]\nentry = \"main.sw\"\nlicense = \"Apache-2.0\"\nname = \"pressure\"\nimplicit-std = false\nexperimental = { new_encoding = false }\n").unwrap();
+        std::fs::write(d.join("src/main.sw"), pressure_src(k, n)).unwrap();
+        chosen.push(d);
+    }
     let exe = std::env::current_exe().unwrap();
     let mut out = std::io::BufWriter::new(std::fs::File::create(&a.out).unwrap());
     let mut jobs = vec![];
@@ -129,6 +143,19 @@ fn main() {
     let _ = std::fs::remove_dir_all(&scratch);
 }
 
+fn pressure_src(k: usize, n: usize) -> String {
+    let cs: Vec<String> = (0..k).map(|i| format!("c{i}")).collect();
+    let fs: Vec<String> = (0..n).map(|i| format!("f{i}")).collect();
+    let mut regs = vec!["m: m".to_string(), "x: x".to_string()];
+    regs.extend(cs.iter().cloned()); regs.push("s".into()); regs.extend(fs.iter().cloned());
+    let mut body = String::new();
+    for c in &cs { body.push_str(&format!("            add {c} x x;\n")); }
+    body.push_str("            add s m m;\n");
+    for f in &fs { body.push_str(&format!("            add {f} x x;\n            add s s {f};\n")); }
+    for c in &cs { body.push_str(&format!("            add s s {c};\n")); }
+    format!("script;\n\n#[inline(never)]\nfn run(seed: u64, x: u64) -> u64 {{\n    let mut m = seed;\n    let mut i = 0;\n    while __lt(i, 3) {{\n        let s = asm({}) {{\n{}            s: u64\n        }};\n        m = __add(s, i);\n        i = __add(i, 1);\n    }}\n    m\n}}\n\nfn main() -> u64 {{\n    __add(run(1, 2), run(3, 4))\n}}\n", regs.join(", "), body)
+}
+
 fn flush_jobs(jobs: &mut Vec<(PathBuf, bool, Vec<std::process::Child>)>, out: &mut dyn Write) {
     for (orig, release, kids) in jobs.drain(..) {
         let mut res = vec![];
@@ -138,7 +165,7 @@ fn flush_jobs(jobs: &mut Vec<(PathBuf, bool, Vec<std::process::Child>)>, out: &m
             let line = s.lines().find(|l| l.starts_with("RESULT ")).map(|l| l[7..].replace(' ', ":")).unwrap_or_else(|| format!("crash:{:?}", o.status.code()));
             res.push(line);
         }
-        let name = orig.strip_prefix("/repo").unwrap_or(&orig).display().to_string();
+        let name = if orig.file_name().map(|f| f.to_string_lossy().starts_with("gen_pressure_")).unwrap_or(false) { format!("gen/{}", orig.file_name().unwrap().to_string_lossy()) } else { orig.strip_prefix("/repo").unwrap_or(&orig).display().to_string() };
         writeln!(out, "build {} {} ;; {}", name, if release { "release" } else { "debug" }, res.join(" ")).unwrap();
     }
 }
